@@ -36,9 +36,15 @@ def specSize (sz : Sizing) (pad bor : Rat) (d : Dim) (ref : Rat) : MF :=
   | .px v => .val (specContent sz pad bor v)
   | .pct p => .val (specContent sz pad bor (ref * p / 100))
 
+/-- `auto` of a max-* property is `none` -/
+def MF.toOpt : MF → Option Rat
+  | .auto => none
+  | .val v => some v
+
 /-- used values before the width/height algorithms: margins, paddings (percentages against the
     WIDTH of the containing block, also for top/bottom), content-box width/height and min/max.
-    A percentage height against an auto-height containing block computes to auto. -/
+    A percentage height / min-height / max-height against an auto-height containing block
+    computes to auto / 0 / none. -/
 def specResolve (cbW : Rat) (cbH : MF) (s : Style) : Used :=
   let pl := specLen s.pl cbW
   let pr := specLen s.pr cbW
@@ -51,15 +57,21 @@ def specResolve (cbW : Rat) (cbH : MF) (s : Style) : Used :=
     pl := pl, pr := pr, pt := pt, pb := pb, bl := s.bl, br := s.br, bt := s.bt, bb := s.bb,
     width := specSize s.sizing (pl + pr) (s.bl + s.br) s.width cbW,
     minW := (specSize s.sizing (pl + pr) (s.bl + s.br) s.minW cbW).V,
-    maxW := (match specSize s.sizing (pl + pr) (s.bl + s.br) s.maxW cbW with
-      | .auto => none
-      | .val v => some v),
+    maxW := (specSize s.sizing (pl + pr) (s.bl + s.br) s.maxW cbW).toOpt,
     height := (match cbH, s.height with
       | .auto, .pct _ => .auto
       | .auto, d => specSize s.sizing (pt + pb) (s.bt + s.bb) d 0
       | .val h, d => specSize s.sizing (pt + pb) (s.bt + s.bb) d h),
-    minH := specContent s.sizing (pt + pb) (s.bt + s.bb) s.minH,
-    maxH := s.maxH.map (specContent s.sizing (pt + pb) (s.bt + s.bb)) }
+    -- CSS 2.1 §10.7: a percentage min-height / max-height against a containing block whose height
+    -- is not specified explicitly is treated as 0 / none
+    minH := (match cbH, s.minH with
+      | .auto, .pct _ => 0
+      | .auto, d => (specSize s.sizing (pt + pb) (s.bt + s.bb) d 0).V
+      | .val h, d => (specSize s.sizing (pt + pb) (s.bt + s.bb) d h).V),
+    maxH := (match cbH, s.maxH with
+      | .auto, .pct _ => none
+      | .auto, d => (specSize s.sizing (pt + pb) (s.bt + s.bb) d 0).toOpt
+      | .val h, d => (specSize s.sizing (pt + pb) (s.bt + s.bb) d h).toOpt) }
 
 /-! ### §10.3.3 / §10.4: horizontal used values (ltr) -/
 
